@@ -9,7 +9,7 @@ CFG = {
     "technique": "Lean 4 proofs over an executable model of vxfw.go with arbitrary widget oracle (and an arbitrary set of failing handler calls); "
                  "model tied to the source by (a) Gen/VxfwCases.lean (switch arms of App.Run and App.handleCommand, statement skeletons of the ten "
                  "handler functions, regenerated every run, compared by theorem), (a') Gen/VxfwBodies.lean: the bodies of the handler functions "
-                 "translated into syntax — round 4: eight bodies, also mouseHandler.update (labelled continue resolved by the translator) and App.handleCommand (type switch) —; ALL EIGHT (focusHandler.handleEvent, mouseHandler.handleEvent, focusWidget, updatePath, mouseHandler.update, mouseExit, mouseEnter, App.handleCommand) are EXECUTED by an interpreter (Model/VxfwInterp.lean, two layers) and proved equal to "
+                 "translated into syntax — round 4: twelve bodies, also mouseHandler.update (labelled continue resolved by the translator), App.handleCommand (type switch), hitTest, SubSurface.containsPoint, focusHandler.childHasFocus and findPath —; ALL TWELVE are EXECUTED by interpreters (Model/VxfwInterp.lean, two layers; Model/VxfwInterpTree.lean for the tree walks) and proved equal to "
                  "the model functions incl. the returned error; the Run loop calling the executed bodies (bRun) is proved equal to the model's eRun; and (b) two correspondence streams: unexported handlers through "
                  "verif_hooks_c15.go, and the real App.Run on a fake console",
     "rule": "C15: random widget sets (1..12 widgets, any subset capturing), random surface trees (depth <= 4, fan-out <= 3, overlapping "
@@ -27,11 +27,12 @@ CFG = {
                      "errors returned by Draw (layout) are outside the model (Run returns them)",
                      "the interpreter Model/VxfwInterp.lean (what a handler call, a type assertion w.(EventCapturer), a type switch on a command value, "
                      "struct equality of hit results, a labelled continue, app.handleCommand and a return mean; in the dispatchers a hit result is its widget, "
-                     "in update the whole struct) is the semantics of the Go subset the eight *_body_eq_model theorems speak about; inside an interpreted body "
-                     "the calls app.handleCommand / m.update / f.focusWidget / f.findPath / hitTest / containsPoint are the model functions (the first three "
-                     "are identified with their own executed bodies by their body_eq_model theorems; findPath, hitTest, containsPoint and the child sort are "
-                     "tied by name-level skeletons + correspondence only); the event switch and frame step of App.Run are transcribed (arms pinned by "
-                     "run_switch_covered / run_arm_count), not interpreted",
+                     "in update the whole struct) and Model/VxfwInterpTree.lean (composite literal hitResult{…}, uint16 subtraction with wrap-around, checked path[i] swaps, "
+                     "recursion on the surface tree) are the semantics of the Go subset the twelve *_body_eq_model theorems speak about; inside an interpreted body "
+                     "of Model/VxfwInterp.lean the calls app.handleCommand / m.update / f.focusWidget / f.findPath / hitTest / containsPoint are the model functions, "
+                     "each identified with its own executed body by its body_eq_model theorem one level down (findPath -> childHasFocus and hitTest -> containsPoint "
+                     "are interpreted callee-in-caller); the event switch and frame step of App.Run are transcribed (pinned by run_switch_covered / run_arm_count / "
+                     "run_frame_order / run_prologue_order), not interpreted; the child sort of render is a model function (render_sort_call + the render ops)",
                      "the translator extract/cmd/C15/skel.go resolves `continue L` to a loop distance (label names, like local names, are not part of the tie)"],
     "level_text": "vxfw routing, focus and hover, after the repairs of F115a/F115b/F43 in /repo. Proved for every widget behaviour (oracle), state, "
                   "history and nesting depth, without exclusions: key_routing (capture root->focused, target, bubble parent->root, stop at the first "
@@ -62,11 +63,16 @@ CFG = {
                   "answers go strictly down in rank; then a budget >= 3R+4 never runs out over any history (generalises run_never_stuck; non-vacuity: A's FocusIn "
                   "focuses B, B answers nil). F115c decision: not a violation of C15's text (every focus change that happens is one FocusOut/FocusIn pair; what "
                   "fails is termination, which the text does not promise); the ping-pong oracle admits no rank (no_rank) and exhausts every budget also through the "
-                  "executed handleCommand body (ping_pong_stuck_body).",
-    "level_note": "Proved: 89 theorems (Props/C15 29, C15Err 7, C15Gen 12, C15Body 23, witnesses 18 showing the pre-fix code violating the statements, the fixed code meeting them, and F115c). Validated by "
+                  "executed handleCommand body (ping_pong_stuck_body). The tree walks: hitTest (uint16 local coordinates incl. wrap-around for negative origins, recursion to any depth), "
+                  "SubSurface.containsPoint, focusHandler.childHasFocus and findPath (the in-place reversal loop proved to be List.reverse, checked indices) executed from "
+                  "their regenerated bodies ARE the model's hitTest / containsPoint / childHasFocus / findPath for every tree, point, focus and state (hit_test_body_eq_model, "
+                  "contains_point_body_eq_model, child_has_focus_body_eq_model, find_path_body_eq_model) - every function named in the property's anchors is now executed from "
+                  "source syntax and proved equal to the model function the property theorems are about. New extractor facts pin the order of App.Run's frame step and prologue "
+                  "(run_frame_order, run_prologue_order).",
+    "level_note": "Proved: 97 theorems (Props/C15 29, C15Err 7, C15Gen 14, C15Body 29, witnesses 18 showing the pre-fix code violating the statements, the fixed code meeting them, and F115c). Validated by "
                   "correspondence only: that the model (incl. the error plumbing) equals vxfw.go (0 mismatches expected on ~38k quick / ~500k thorough op "
                   "lines, both streams), Go's sort.Slice stability for <= 12 children, uint16 coordinate arithmetic (proved equal to integer "
-                  "arithmetic for sizes < 65536, hit_list_is_under). Modelled not verified: stack overflow on unbounded refocus recursion (fuel; Witness.F115c proves the budget runs out for every budget for ping-pong handlers; "
+                  "arithmetic for sizes < 65536, hit_list_is_under; since round 4 the uint16 subtractions of hitTest are executed from the body: hit_test_body_eq_model). Modelled not verified: stack overflow on unbounded refocus recursion (fuel; Witness.F115c proves the budget runs out for every budget for ping-pong handlers; "
                   "commands_once_history keeps the hypothesis stuck = false, commands_once_history_ranked / _wf discharge it for ranked / focus-free notification handlers), "
                   "the knot handleCommand <-> focusWidget as ONE recursive interpreted program (each body is interpreted with the other as the model function), "
                   "timing of the 8 ms frame timer (frames are explicit steps), Draw errors.",
